@@ -65,7 +65,7 @@ def run_check(prop: str, tier: str, seed: int, only_shard: int | None = None, ns
             os.makedirs(env["VMON_WORK"], exist_ok=True)
             # environment diversity: a property module may ask for its last shard to run in an interpreter started with -O
             # (assert statements not executed) - valid inputs must be handled the same way there
-            opt = ["-O"] if (getattr(mod, "OPTIMISED_LAST_SHARD", False) and s == nshards - 1 and nshards > 1) else []
+            opt = ["-O"] if ((getattr(mod, "OPTIMISED_LAST_SHARD", True) and not os.environ.get("VMON_NO_O")) and s == nshards - 1 and nshards > 1) else []
             p = subprocess.Popen([PY, *opt, "-m", "vmon.worker", prop, tier, str(seed), str(s), str(nshards), out],
                                  cwd=VERIF_ROOT, env=env, stdout=log, stderr=subprocess.STDOUT)
             procs.append((s, p, out, log))
